@@ -58,6 +58,9 @@ def base_op(spec):
     else:
         doc = CT.gen_combined(rw, ncontracts=rw.choice([1, 2]), nblocks_init=1, nblocks_run=2 if small else 5,
                               block_kw={"length": 7 if small else None})
+    if i % 5 == 1:
+        # a block whose analysis is impossible: it stays as it is in the direct run, so it has to stay in the replay too
+        CT.inject_unanalysable(doc, stream(spec["seed"], i, "unanalysable"))
     op = C.asm_op(doc, flags + ["-log"])
     op["fmt"] = "asm"
     op["desc"] = desc
@@ -127,6 +130,8 @@ def run_case(op, choose_crash, choose_tampers, summ, oracle_seed, phases=("fidel
     nlog = len(json.loads(log.decode()))
     base_files = {inp: op["files"][inp]}
     summ["probes"]["log_entries"] = summ["probes"].get("log_entries", 0) + nlog
+    if '"MCOPY"' in op["files"][inp]:
+        summ["probes"]["base_run_with_unanalysable_block"] = summ["probes"].get("base_run_with_unanalysable_block", 0) + 1
     if op.get("solver_mutator"):
         nm = len(res["records"].get("reply_mutations", []))
         summ["faults"]["reply_corrupted"] = summ["faults"].get("reply_corrupted", 0) + nm
